@@ -4,6 +4,7 @@
 From Coq Require Import List String NArith ZArith Bool.
 From AM Require Import Rust.Ast Gen.Records Gen.Deps Ref.Load Ref.Sys Proofs.SysGrows Proofs.SysFrame Proofs.SysRecs
   Proofs.SysReload Tie.Records Tie.Erasure Tie.Static Gen.Dirs Tie.Dirs Gen.Asset Gen.Error Tie.Error Tie.LoadFromSource.
+From AM Require Import Proofs.SysGraph.
 Import ListNotations.
 
 (* values already cached are untouched, whatever happens *)
@@ -78,3 +79,8 @@ Theorem C09_code_read_faults_are_reported_not_retried :
                        && outcome_eqb (gen_load atts true) (ref_load atts true)) all_cases = true
   /\ List.length all_cases = 156%nat.
 Proof. exact load_from_source_bounded_tie. Qed.
+
+(* a fault while loading is contained in the cache, too: no operation of the cache changes the source's files, directories or fault plan *)
+Theorem C09_cache_operations_only_read_the_source : forall fuel s o,
+  edits_source o = false -> src_same s (fst (fst (step fuel s o))).
+Proof. exact cache_operations_only_read_the_source. Qed.
